@@ -77,9 +77,13 @@ def run(R):
             if sub is not None:
                 one(R, B, name + '/descendant-after-root', sub[1], sub[0], dict(W, sequence='root, then a descendant on its own'), all_forms=False, light=True)
                 one(R, B, name + '/root-after-descendant', r, c, dict(W, sequence='root, descendant, root again'), all_forms=False, light=True)
-                st, parent = mon.call(lambda: B.Builder().store_bits('1011').store_ref(sub[0]).store_ref(c).end_cell())
+                try:
+                    parent_r = rc.RC('1011', (sub[1], r))
+                except rc.RefError:          # e.g. the root already has depth 1023: no parent exists
+                    parent_r = None
+                st, parent = mon.call(lambda: B.Builder().store_bits('1011').store_ref(sub[0]).store_ref(c).end_cell()) if parent_r is not None else ('skip', None)
                 if st == 'ok':
-                    one(R, B, name + '/new-parent-of-serialised-cells', rc.RC('1011', (sub[1], r)), parent, dict(W, sequence='children first, then a new parent'), all_forms=False, light=True)
+                    one(R, B, name + '/new-parent-of-serialised-cells', parent_r, parent, dict(W, sequence='children first, then a new parent'), all_forms=False, light=True)
                 R.count('multi_bag_sequences')
             # equal sub-cells as distinct Python objects, and a root that came out of the parser (its cells hold parser-made bit arrays)
             st, cf = mon.call(bridge.to_lib, r, 'builder-fresh')
